@@ -252,7 +252,7 @@ def plan_C02(prop, tier, seed, t0):
         # --unknown-every K: every K-th circuit also with an UnknownGate inserted (recorded in stats, not judged)
         dict(name="rand", engine="tograph", args=["--random", 250 if q else 4000, "--alphabet", "all", "--maxq", 3, "--maxlen", 8,
                                                   "--direct-every", 10 if q else 5, "--unknown-every", 16 if q else 8], **C),
-        dict(name="rand4", engine="tograph", args=["--random", 40 if q else 1000, "--alphabet", "unitary", "--maxq", 4, "--maxlen", 10], **C),
+        dict(name="rand4", engine="tograph", args=["--random", 40 if q else 400, "--alphabet", "unitary", "--maxq", 4, "--maxlen", 10], **C),
         # measurements with explicit outcome variables (shared, mixed with fresh ones, parities), also via QASM `measure` statements
         dict(name="vars", engine="tograph", args=["--random", 30 if q else 1500, "--alphabet", "all", "--maxq", 3, "--maxlen", 7, "--vars", "--meas-boost",
                                                   "--direct-every", 3], **C),
